@@ -33,8 +33,8 @@ CONSTANTS MaxDepth,
 \* <<"Linear", "Linear">> is instantiated with wide layers (192 -> 256 -> 8), so that int2/int4 weights get group sizes 96 and 128
 Archs == {<<"Linear", "Other", "Linear">>, <<"LayerNorm", "Linear">>, <<"Conv2d", "Other", "Conv2d">>, <<"Linear", "LayerNorm", "Linear">>, <<"Linear", "Linear">>}
 WQs == {"qint8", "qfloat8", "qint4", "qint2"}
-AQs == {"none", "qint8", "qfloat8"}
-Momenta == {"m50", "m90", "m25"}
+AQs == {"none", "qint8", "qfloat8", "qfloat8_e5m2"}
+Momenta == {"m50", "m90", "m25", "m0"}      \* m0: momentum 0, the scale is the range of the last batch
 Batches == {"b1", "b2", "b3", "bone"}      \* "bone": a batch whose absmax is exactly the storage maximum (scale = 1.0)
 Filters == {"all", "first", "last"}
 
